@@ -453,12 +453,14 @@ inductive Step : State → Label → State → Prop where
       Step s (.resume (gotOf s op) (allDoneOf s op)) (doResume s op rest c)
   | current (s : State) (op : Op) (rest : List Op) (h : s.pc = .curr) (ht : s.todo = op :: rest) :
       Step s (.current s.exec) (doCurrent s op rest)
+  /-- co_return (`return_value` = Store, then the scopes are left) / an exception leaves the body (the scopes are left, then
+      `unhandled_exception` = Store): the body is over, the Result is determined -/
+  | ret (s : State) (h : s.pc = .idle) (ht : s.todo = []) : Step s .ret (doRet s)
   /-- a local of the frame is destroyed: leaving the body, or `handle.destroy()` of a suspended (dropped) coroutine -/
-  | ldtor (s : State) (h : (s.pc = .idle ∧ s.todo = []) ∨ s.pc = .done) (hl : 0 < s.live) : Step s .ldtor (doLdtor s)
-  /-- co_return / unhandled_exception: Store -/
-  | ret (s : State) (h : s.pc = .idle) (ht : s.todo = []) (hl : s.live = 0) : Step s .ret (doRet s)
-  /-- final_suspend / Drop: SetResult publishes the coroutine's Result -/
-  | publish (s : State) (r : Res) (h : s.pc = .fin) (hr : s.result = some r) : Step s (.publish r) (doPublish s r)
+  | ldtor (s : State) (h : (s.pc = .fin ∧ s.dropped = false) ∨ s.pc = .done) (hl : 0 < s.live) : Step s .ldtor (doLdtor s)
+  /-- final_suspend (all locals are gone) / Drop (the coroutine stays suspended): SetResult publishes the coroutine's Result -/
+  | publish (s : State) (r : Res) (h : s.pc = .fin) (hr : s.result = some r) (hl : s.dropped = true ∨ s.live = 0) :
+      Step s (.publish r) (doPublish s r)
   /-- the state's deleter destroys the frame -/
   | fdtor (s : State) (h : s.pc = .done) (hl : s.live = 0) : Step s .fdtor (doFdtor s)
 
@@ -558,9 +560,10 @@ def next (s : State) : Label → Option State
       match s.todo with
       | op :: rest => if s.pc = .curr ∧ e = s.exec then some (doCurrent s op rest) else none
       | [] => none
-  | .ldtor => if ((s.pc = .idle ∧ s.todo = []) ∨ s.pc = .done) ∧ 0 < s.live then some (doLdtor s) else none
-  | .ret => if s.pc = .idle ∧ s.todo = [] ∧ s.live = 0 then some (doRet s) else none
-  | .publish r => if s.pc = .fin ∧ s.result = some r then some (doPublish s r) else none
+  | .ldtor => if ((s.pc = .fin ∧ s.dropped = false) ∨ s.pc = .done) ∧ 0 < s.live then some (doLdtor s) else none
+  | .ret => if s.pc = .idle ∧ s.todo = [] then some (doRet s) else none
+  | .publish r =>
+      if s.pc = .fin ∧ s.result = some r ∧ (s.dropped = true ∨ s.live = 0) then some (doPublish s r) else none
   | .fdtor => if s.pc = .done ∧ s.live = 0 then some (doFdtor s) else none
 
 theorem next_sound {s : State} {l : Label} {s' : State} (h : next s l = some s') : Step s l s' := by
@@ -737,12 +740,12 @@ theorem next_sound {s : State} {l : Label} {s' : State} (h : next s l = some s')
   | ret =>
       simp only [next] at h
       split at h
-      · rename_i hg; cases h; exact .ret s hg.1 hg.2.1 hg.2.2
+      · rename_i hg; cases h; exact .ret s hg.1 hg.2
       · cases h
   | publish r =>
       simp only [next] at h
       split at h
-      · rename_i hg; cases h; exact .publish s r hg.1 hg.2
+      · rename_i hg; cases h; exact .publish s r hg.1 hg.2.1 hg.2.2
       · cases h
   | fdtor =>
       simp only [next] at h
